@@ -17,6 +17,11 @@ ROOTS = ("x", "y")
 # ------------------------------------------------------------------------------------------------
 # enumeration
 # ------------------------------------------------------------------------------------------------
+def pick_by_name(output, name):
+    """custom output_picker for functions that return {output name: value}"""
+    return output[name]
+
+
 def _key(spec) -> str:
     return json.dumps(spec, sort_keys=True)
 
@@ -89,6 +94,11 @@ def decorations(spec):
             s["funcs"][i]["ren"] = {o: o + "_orig"}
             s["deco"] = "rename-output"
             yield s
+        if len(f["outs"]) > 1:
+            s = copy.deepcopy(spec)
+            s["funcs"][i]["picker"] = True  # the function returns a dict and has a custom output_picker
+            s["deco"] = "custom-picker"
+            yield s
         if len(f["outs"]) == 1:
             s = copy.deepcopy(spec)
             s["funcs"][i]["none"] = True  # the function returns None (a legitimate value like any other)
@@ -115,9 +125,11 @@ def build_funcs(spec, *, hook=None, cache=None, extra: dict | None = None) -> li
         orig_params = [ren.get(p, p) for p in f["params"]]
         sigdef = {ren.get(p, p): v for p, v in f.get("sigdef", {}).items()}
         fn = terms.make_function(f.get("tag", f["name"]), orig_params, len(f["outs"]), sig_defaults=sigdef, hook=hook,
-                                 returns_none=bool(f.get("none")))
+                                 returns_none=bool(f.get("none")), dict_keys=list(f["outs"]) if f.get("picker") else None)
         orig_outs = [ren.get(o, o) for o in f["outs"]]
         kw = {}
+        if f.get("picker"):
+            kw["output_picker"] = pick_by_name
         if ren:
             kw["renames"] = {v: k for k, v in ren.items()}
         if f.get("pfdef"):
@@ -212,6 +224,8 @@ def ref_eval(spec, out, kw) -> RefResult:
     if isinstance(out, (tuple, list)):
         i, _ = prod[out[0]]
         value = run(i)
+        if spec["funcs"][i].get("picker"):
+            value = dict(zip(spec["funcs"][i]["outs"], value))  # requested as a whole: the function's raw return value
     else:
         value = val(out)
     return RefResult(value, ran, inter, used)
